@@ -500,6 +500,12 @@ def _slice_table(c, R, rid):
         sides.append(pids.index(o) if o in pids[:2] else None)
     R.inst(rid, "slice:key-order-from-both-sides", sorted(x for x in sides if x is not None) == [0, 1], sp=mpo[0]["sp"], got=sides,
            detail="the merged key order must be computed from the client keys and the server keys")
+    # every result comes out of the per-key decision: no shortcut that returns one side as it is (seed C13-7: `if server.is_empty()
+    # { return Ok(client.to_vec()) }` leaves one-sided members unmarked)
+    early = H.success_returns(body)
+    R.inst(rid, "slice:no-shortcut-exit", not early, sp=(early[0].get("sp") if early else fn["sp"]),
+           expect="the only successful result is the collected per-key decision", got=[H.render(n)[:100] for n in early],
+           detail="an element present on one side only must pass through side(_, Client|Server) whatever the other list contains")
     # the per-key decision: the smallest expression containing every call of the `side` / `inner` callbacks
     # (a closure mapped over the key order, the body of a `for` loop, a `match`, an if-let chain ...)
     cbs = [n for n in H.walk(body) if n.get("k") == "call" and (n.get("callee") or {}).get("r") == "local" and n["callee"]["id"] in fnparams]
@@ -509,6 +515,9 @@ def _slice_table(c, R, rid):
         return
     if dec.get("k") == "closure":
         dec = dec["body"]
+    dconds = H.path_conditions(body, dec)
+    R.inst(rid, "slice:decision-unconditional", not dconds, sp=dec.get("sp"), expect="the per-key decision is reached for every pair of lists",
+           got=[(k, H.render(cn)[:60] if k != "arm" else "match arm", p) for k, cn, p in dconds])
     E = {0: T.sym("E_client"), 1: T.sym("E_server")}
 
     def cell(pc, ps):
